@@ -105,7 +105,7 @@ var reserved = map[string]bool{
 	"select": true, "from": true, "where": true, "group": true, "having": true, "order": true, "limit": true,
 	"offset": true, "union": true, "except": true, "intersect": true, "on": true, "join": true, "left": true,
 	"right": true, "inner": true, "outer": true, "cross": true, "full": true, "lateral": true, "as": true,
-	"and": true, "or": true, "not": true, "for": true, "returning": true, "set": true, "values": true,
+	"and": true, "or": true, "not": true, "for": true, "returning": true, "set": true,
 	"when": true, "then": true, "else": true, "end": true, "into": true, "using": true, "with": true,
 	"window": true, "fetch": true, "do": true, "conflict": true, "natural": true, "is": true, "in": true,
 	"like": true, "ilike": true, "between": true, "case": true, "loop": true, "asc": true, "desc": true,
